@@ -257,3 +257,106 @@ Proof.
   - inversion E; subst. apply G; [reflexivity|reflexivity|]. intros tys0 H0 _. cbn. apply (B s c tys0 Ec H0). left. exact Ep.
   - destruct (styps c); discriminate.
 Qed.
+
+(* ---- the only steps that change a sink list ------------------------------------------------ *)
+Definition sinks_fwd (st st' : state) : Prop :=
+  forall n nd, nth_error (nodes st) n = Some nd -> exists nd', nth_error (nodes st') n = Some nd' /\ sinks nd' = sinks nd.
+
+Lemma sf_eq : forall st st', map sinks (nodes st') = map sinks (nodes st) -> sinks_fwd st st'.
+Proof.
+  intros st st' H n nd En. assert (X : nth_error (map sinks (nodes st)) n = Some (sinks nd)) by (rewrite nth_error_map, En; reflexivity).
+  rewrite <- H, nth_error_map in X. destruct (nth_error (nodes st') n) as [nd'|]; [|discriminate]. exists nd'. inversion X. auto.
+Qed.
+Lemma sf_trans : forall a b c, sinks_fwd a b -> sinks_fwd b c -> sinks_fwd a c.
+Proof. intros a b c H1 H2 n nd En. destruct (H1 n nd En) as [nb [A B]]. destruct (H2 n nb A) as [nc [C D]]. exists nc. split; [exact C|congruence]. Qed.
+Lemma send_sf : forall st s it st', send st s it = Some st' -> sinks_fwd st st'.
+Proof. intros st s it st' E. apply sf_eq. rewrite (send_nodes' _ _ _ _ E). reflexivity. Qed.
+Lemma try_drop_sf : forall st ty st', try_drop st ty = Some st' -> sinks_fwd st st'.
+Proof. intros st ty st' E. apply sf_eq. unfold try_drop in E. brute E; inversion E; subst; reflexivity. Qed.
+Lemma with_node_sf : forall st ty st1 n, with_node st ty = Some (st1, n) -> sinks_fwd st st1.
+Proof.
+  intros st ty st1 n1 Ew n0 nd0 H0. unfold with_node in Ew. destruct (lookup st ty) as [sl m] eqn:El.
+  destruct (nth_error (nodes sl) m) as [ndm|] eqn:Em; [|discriminate]. inversion Ew; subst. clear Ew.
+  unfold lookup in El. destruct (nth_error (bmap st) ty) as [[k0|]|]; inversion El; subst; cbn.
+  - destruct (Nat.eq_dec n1 n0) as [->|N]; [rewrite H0 in Em; inversion Em; subst; exists (n_pend ndm (S (npend ndm))); rewrite (nth_error_upd_eq _ _ _ _ H0); auto|].
+    exists nd0. rewrite nth_error_upd_neq by assumption. auto.
+  - assert (L : n0 < length (nodes st)) by (apply nth_error_Some; congruence).
+    exists nd0. rewrite nth_error_upd_neq by lia. rewrite (nth_error_app_old _ _ _ _ H0). auto.
+  - assert (L : n0 < length (nodes st)) by (apply nth_error_Some; congruence).
+    exists nd0. rewrite nth_error_upd_neq by lia. rewrite (nth_error_app_old _ _ _ _ H0). auto.
+Qed.
+
+Definition sapp_shape (st : state) (t : thr) (st' : state) : Prop :=
+  exists s c i n nd nd', t = TSub s /\ nth_error (subs st) s = Some c /\ spc c = SApp i n /\ nth_error (nodes st) n = Some nd /\
+    nodes st' = upd (nodes st) n nd' /\ sinks nd' = sinks nd ++ [s].
+Definition krem_shape (st : state) (t : thr) (st' : state) : Prop :=
+  exists s c j n nd, t = TClose s /\ nth_error (subs st) s = Some c /\ cpc c = KRem j /\ nth_error (nodes st) n = Some nd /\
+    nodes st' = upd (nodes st) n (n_sinks nd (remove_swap s (sinks nd))).
+
+Ltac sf_only :=
+  left; apply sf_eq;
+  cbn [nodes subs set_emitter set_emitters set_sub set_subs set_node set_nodes set_blk set_bmap set_wild set_emit set_emits set_panicked];
+  try reflexivity; try (eapply (map_upd_same sinks); [eassumption|reflexivity]).
+
+Lemma step_sinks_cases : forall st t l st', step st t = Some (l, st') ->
+  sinks_fwd st st' \/ sapp_shape st t st' \/ krem_shape st t st'.
+Proof.
+  intros st t l st' E. destruct t; cbn [step] in E.
+  - unfold step_emnew in E. destruct (nth_error (emitters st) j) as [m|]; [|discriminate].
+    destruct (mnew m) as [|[|[|[|?]]]]; try discriminate; try solve [brute E; inversion E; subst; sf_only].
+    destruct (with_node st (mty m)) as [[st1 n]|] eqn:Ew; [|discriminate]. inversion E; subst.
+    left. eapply sf_trans; [eapply with_node_sf, Ew|apply sf_eq; reflexivity].
+  - unfold step_emclose in E. destruct (nth_error (emitters st) j) as [m|]; [|discriminate].
+    destruct (mcl m); try discriminate; try solve [brute E; inversion E; subst; sf_only].
+    apply otau_Some in E. destruct E as [E _]. apply option_map_Some in E. destruct E as [x [E ->]].
+    left. eapply sf_trans; [eapply try_drop_sf, E|apply sf_eq; reflexivity].
+  - unfold step_emit in E. destruct (nth_error (emits st) k) as [e|]; [|discriminate].
+    destruct (nth_error (emitters st) (eem e)) as [m|]; [|discriminate].
+    destruct (epc e) as [| | |n [|x r]|n|n|n [|x r]|c|]; try discriminate; try solve [brute E; inversion E; subst; sf_only];
+      apply otau_Some in E; destruct E as [E _]; apply option_map_Some in E; destruct E as [x0 [E ->]];
+      left; (eapply sf_trans; [eapply send_sf, E|apply sf_eq; reflexivity]).
+  - unfold step_sub in E. destruct (nth_error (subs st) s) as [c|] eqn:Ec; [|discriminate].
+    destruct (spc c) eqn:Ep; try solve [brute E; inversion E; subst; sf_only].
+    + destruct (styps c) as [tys|]; [|discriminate]. destruct (nth_error tys i) as [ty|]; [|discriminate].
+      destruct (with_node st ty) as [[st1 n]|] eqn:Ew; [|discriminate]. inversion E; subst.
+      left. eapply sf_trans; [eapply with_node_sf, Ew|apply sf_eq; reflexivity].
+    + destruct (styps c) as [tys|] eqn:Et; [|discriminate]. destruct (nth_error (nodes st) n) as [nd|] eqn:En; [|discriminate].
+      destruct (holder nd); [discriminate|]. inversion E; subst. clear E.
+      right. left. exists s, c, i, n, nd. eexists. repeat split; try eassumption; reflexivity.
+  - unfold step_replay in E. destruct (nth_error (subs st) s) as [c|] eqn:Ec; [|discriminate].
+    destruct (nth_error (rpend c) i) as [[|]|]; try discriminate.
+    destruct (nth_error (snodes c) i) as [n|]; [|discriminate]. destruct (nth_error (nodes st) n) as [nd|] eqn:En; [|discriminate].
+    destruct (keep nd); [destruct (nlast nd) as [lv|]|]; try solve [inversion E; subst; sf_only].
+    apply otau_Some in E. destruct E as [E _]. apply option_map_Some in E. destruct E as [x [E ->]].
+    destruct (nth_error (subs x) s) as [c'|] eqn:Ec'; [|left; eapply send_sf, E].
+    left. eapply sf_trans; [eapply send_sf, E|]. apply sf_eq. cbn. apply (map_upd_same sinks _ n _ nd); [rewrite (send_nodes' _ _ _ _ E); exact En|reflexivity].
+  - unfold step_close in E. destruct (nth_error (subs st) s) as [c|] eqn:Ec; [|discriminate].
+    destruct (cpc c) eqn:Ek; try discriminate; try solve [brute E; inversion E; subst; sf_only].
+    + destruct (nth_error (snodes c) i) as [n|] eqn:Ei; [|discriminate]. destruct (nth_error (nodes st) n) as [nd|] eqn:En; [|discriminate].
+      destruct (holder nd); [discriminate|]. inversion E; subst. clear E.
+      right. right. exists s, c, i, n, nd. repeat split; try eassumption; reflexivity.
+    + destruct (nth_error (snodes c) i) as [n|] eqn:Ei; [|discriminate]. destruct (nth_error (nodes st) n) as [nd|]; [|discriminate].
+      apply otau_Some in E. destruct E as [E _]. apply option_map_Some in E. destruct E as [x [E ->]].
+      left. eapply sf_trans; [eapply try_drop_sf, E|apply sf_eq; reflexivity].
+  - unfold step_drain in E. destruct (nth_error (subs st) s) as [c|] eqn:Ec; [|discriminate]. brute E; inversion E; subst; sf_only.
+  - unfold step_req in E. destruct (nth_error (subs st) s) as [c|] eqn:Ec; [|discriminate]. inversion E; subst; sf_only.
+  - unfold step_recv in E. destruct (nth_error (subs st) s) as [c|] eqn:Ec; [|discriminate]. brute E; inversion E; subst; sf_only.
+  - unfold step_read in E. destruct (nth_error (subs st) s) as [c|] eqn:Ec; [|discriminate]. brute E; inversion E; subst; sf_only.
+Qed.
+
+(* a listed subscription stays listed unless its own Close removes it *)
+Lemma step_sinks : forall st t l st' n nd s0, step st t = Some (l, st') -> nth_error (nodes st) n = Some nd -> In s0 (sinks nd) ->
+  (exists nd', nth_error (nodes st') n = Some nd' /\ In s0 (sinks nd')) \/
+  (exists c0 i, nth_error (subs st) s0 = Some c0 /\ cpc c0 = KRem i).
+Proof.
+  intros st t l st' n nd s0 E En Hin. destruct (step_sinks_cases _ _ _ _ E) as [S|[S|S]].
+  - left. destruct (S n nd En) as [nd' [A B]]. exists nd'. rewrite B. auto.
+  - left. destruct S as [s [c [i [n1 [nd1 [nd1' [_ [_ [_ [En1 [Hn Hs]]]]]]]]]]]. rewrite Hn. destruct (Nat.eq_dec n1 n) as [->|N].
+    + rewrite En in En1. inversion En1; subst nd1. exists nd1'. rewrite (nth_error_upd_eq _ _ _ _ En), Hs. split; [reflexivity|apply in_or_app; left; exact Hin].
+    + exists nd. rewrite nth_error_upd_neq by assumption. auto.
+  - destruct S as [s [c [j [n1 [nd1 [_ [Ec [Ek [En1 Hn]]]]]]]]]. destruct (Nat.eq_dec s s0) as [->|Ns]; [right; exists c, j; auto|].
+    left. rewrite Hn. destruct (Nat.eq_dec n1 n) as [->|N].
+    + rewrite En in En1. inversion En1; subst nd1. eexists. rewrite (nth_error_upd_eq _ _ _ _ En). split; [reflexivity|]. cbn.
+      apply cnt_In. rewrite cnt_remove_swap_other by congruence. apply cnt_In, Hin.
+    + exists nd. rewrite nth_error_upd_neq by assumption. auto.
+Qed.
